@@ -67,10 +67,10 @@ def header_plan(rng, n_fields=6, kinds=None, heuristic_safe=False):
     """Choose fields and a behaviour for each: returns callable (i,x,t)->dict and a description.
     kinds: 'const', 'vary', 'dup', 'coincide' (varies but first==last), 'extreme'"""
     avoid = {int(TF.INLINE_3D), int(TF.CROSSLINE_3D), int(TF.TRACE_SAMPLE_COUNT), int(TF.TRACE_SAMPLE_INTERVAL),
-             int(TF.DelayRecordingTime)}
+             int(TF.DelayRecordingTime), int(TF.offset)}   # offset (37) takes part in segyio's sorting detection
     cand = [c for c in ALL_FIELDS if c not in avoid]
     fields = list(rng.choice(cand, size=min(n_fields, len(cand)), replace=False))
-    kinds = kinds or ['const', 'vary', 'dup', 'coincide', 'extreme', 'vary', 'const']
+    kinds = kinds or ['const', 'vary', 'dup', 'coincide', 'extreme', 'vary', 'const', 'vary0', 'const0last']
     plan = []
     vary_fields = []
     for c in fields:
@@ -88,6 +88,12 @@ def header_plan(rng, n_fields=6, kinds=None, heuristic_safe=False):
             plan.append((c, k, int(rng.choice(vary_fields))))
         elif k == 'coincide':
             plan.append((c, k, int(rng.integers(1, 100))))
+        elif k == 'vary0':      # varies, and is exactly 0 in the first trace
+            plan.append((c, k, int(rng.integers(1, 9)) * (1 if rng.random() < .7 else -1)))
+            vary_fields.append(c)
+        elif k == 'const0last':  # varies, and is exactly 0 in the last trace
+            plan.append((c, k, int(rng.integers(1, 9))))
+            vary_fields.append(c)
         else:
             a, b = int(rng.integers(-50, 50)), int(rng.integers(1, 9)) * (1 if rng.random() < .7 else -1)
             plan.append((c, 'vary', (a, b)))
@@ -105,6 +111,10 @@ def header_plan(rng, n_fields=6, kinds=None, heuristic_safe=False):
                 out[c] = int(np.clip(p[0] + p[1] * (t + 1) + 3 * i, lo, hi))
             elif k == 'extreme':
                 out[c] = p[0] if t % 2 == 0 else p[1]
+            elif k == 'vary0':
+                out[c] = int(np.clip(p * t, lo, hi))
+            elif k == 'const0last':
+                out[c] = 0 if last.get('final') == t else int(np.clip(p * (t + 1), 1, hi))
             elif k == 'coincide':
                 out[c] = p if t == 0 or last.get('final') == t else p + 1 + (t % 5)
         for c, k, p in plan:
